@@ -374,7 +374,7 @@ def run(ck):
         for used in range(4):
             cases.append((f, None, rng.choice(list(VERSIONS)), 4, used, False, False))
     n_rsa4096 = sum(1 for c in cases if c[2] == "1.1")
-    extra = ck.budget(150, 6000)
+    extra = ck.budget(120, 5000)
     while extra > 0:
         v = rng.choice(list(VERSIONS))
         if v == "1.1" and n_rsa4096 > ck.budget(24, 400):
